@@ -1,4 +1,632 @@
 package main
 
-func runCheck(prop, tier, replay string) int { return 2 }
-func runSelftest() int                      { return 2 }
+import (
+	"encoding/json"
+	"fmt"
+	"os"
+	"os/exec"
+	"path/filepath"
+	"regexp"
+	"runtime"
+	"sort"
+	"strconv"
+	"strings"
+	"sync"
+	"time"
+)
+
+// Spec of one property's check.
+type Spec struct {
+	Prop     string
+	Engine   string // plugin-world | wire-world | order-world
+	Level    string
+	Binary   string // "root" or "tb"
+	Quick    Tier
+	Thorough Tier
+	Rule     string
+	RealComp []string
+	StubComp []string
+	Assume   []string
+	Kinds    []string // run kinds executed as separate batches ("" = single)
+	Race     bool     // thorough tier also runs a -race batch
+}
+
+type Tier struct {
+	Count   int     // seeded runs
+	Floor   bool    // systematic floor
+	BudgetS float64 // wall-clock cap per worker for the seeded part
+	StepCap int64
+}
+
+// Job / Output mirror the worker's types (overlay/internal/zzsim/zzmain).
+type Job struct {
+	Prop     string  `json:"prop"`
+	Tier     string  `json:"tier"`
+	Mode     string  `json:"mode"`
+	Seed     uint64  `json:"seed"`
+	Worker   int     `json:"worker"`
+	Stride   int     `json:"stride"`
+	Count    int     `json:"count"`
+	Floor    bool    `json:"floor"`
+	Kind     string  `json:"kind"`
+	TmpDir   string  `json:"tmp"`
+	Out      string  `json:"out"`
+	BudgetS  float64 `json:"budget_s"`
+	Replay   []int32 `json:"replay,omitempty"`
+	Samples  int     `json:"samples"`
+	MaxViol  int     `json:"max_violations"`
+	ShrinkS  float64 `json:"shrink_s"`
+	Repeat   int     `json:"repeat"`
+	StepCap  int64   `json:"step_cap"`
+	FirstIdx int     `json:"first_index"`
+}
+
+type Failure struct {
+	Check string
+	Msg   string
+}
+
+type Violation struct {
+	Check     string   `json:"check"`
+	Msg       string   `json:"msg"`
+	Seed      uint64   `json:"seed"`
+	Index     int      `json:"index"`
+	Cell      int      `json:"cell"`
+	RunSeed   uint64   `json:"run_seed"`
+	Choices   []int32  `json:"choices"`
+	OrigLen   int      `json:"original_choices"`
+	ShrinkRun int      `json:"shrink_executions"`
+	Trace     []string `json:"trace"`
+	AllChecks []string `json:"all_checks"`
+	Kind      string   `json:"kind"`
+}
+
+type Output struct {
+	Prop        string            `json:"prop"`
+	Worker      int               `json:"worker"`
+	Runs        int64             `json:"runs"`
+	Nontrivial  int64             `json:"nontrivial"`
+	Keys        []uint64          `json:"keys"`
+	SchedHashes []uint64          `json:"sched_hashes"`
+	MapHashes   []uint64          `json:"map_hashes"`
+	Steps       int64             `json:"steps"`
+	Switches    int64             `json:"switches"`
+	Counts      map[string]int64  `json:"counts"`
+	Probes      map[string]int64  `json:"probes"`
+	Violations  []Violation       `json:"violations"`
+	Samples     []interface{}     `json:"samples"`
+	Hashes      map[string]uint64 `json:"hashes,omitempty"`
+	Notes       []string          `json:"notes"`
+	Stopped     string            `json:"stopped"`
+	WallS       float64           `json:"wall_s"`
+	Aborted     int64             `json:"aborted_runs"`
+	Diverged    []string          `json:"diverged,omitempty"`
+	ReplayFails []Failure         `json:"replay_failures,omitempty"`
+	ReplayTrace []string          `json:"replay_trace,omitempty"`
+}
+
+// ReplayFile is what a violation is written out as.
+type ReplayFile struct {
+	Property string   `json:"property"`
+	Check    string   `json:"check"`
+	Message  string   `json:"message"`
+	Kind     string   `json:"kind"`
+	Seed     uint64   `json:"verif_seed"`
+	RunSeed  uint64   `json:"run_seed"`
+	Index    int      `json:"index"`
+	Cell     int      `json:"cell"`
+	Mode     string   `json:"mode"` // "choices" or "seed" (process crash before the choices could be recorded)
+	Choices  []int32  `json:"choices"`
+	OrigLen  int      `json:"original_choice_count"`
+	Shrink   int      `json:"shrink_executions"`
+	Trace    []string `json:"trace"`
+	Race     bool     `json:"race_build"`
+}
+
+type KnownFinding struct {
+	ID        string   `json:"id"`
+	Property  string   `json:"property"`
+	Status    string   `json:"status"` // open | fixed
+	Check     string   `json:"check"`
+	TraceAll  []string `json:"trace_all,omitempty"`  // regexps; each must match some trace line
+	TraceNone []string `json:"trace_none,omitempty"` // regexps; none may match any trace line
+	What      string   `json:"what"`
+	Commit    string   `json:"commit,omitempty"`
+}
+
+func loadKnown() []KnownFinding {
+	data, err := os.ReadFile(filepath.Join(verifDir, "known_findings.json"))
+	if err != nil {
+		return nil
+	}
+	var k []KnownFinding
+	if err := json.Unmarshal(data, &k); err != nil {
+		fmt.Fprintln(os.Stderr, "known_findings.json:", err)
+		os.Exit(2)
+	}
+	return k
+}
+
+func (k *KnownFinding) matches(prop string, v *Violation) bool {
+	if k.Status != "open" || k.Property != prop || k.Check != v.Check {
+		return false
+	}
+	lines := append([]string{v.Msg}, v.Trace...)
+	for _, re := range k.TraceAll {
+		rx := regexp.MustCompile(re)
+		ok := false
+		for _, l := range lines {
+			if rx.MatchString(l) {
+				ok = true
+				break
+			}
+		}
+		if !ok {
+			return false
+		}
+	}
+	for _, re := range k.TraceNone {
+		rx := regexp.MustCompile(re)
+		for _, l := range lines {
+			if rx.MatchString(l) {
+				return false
+			}
+		}
+	}
+	return true
+}
+
+func verifSeed() uint64 {
+	if s := os.Getenv("VERIF_SEED"); s != "" {
+		if v, err := strconv.ParseUint(s, 10, 64); err == nil {
+			return v
+		}
+		if v, err := strconv.ParseInt(s, 10, 64); err == nil {
+			return uint64(v)
+		}
+	}
+	return 1
+}
+
+func nWorkers() int {
+	n := runtime.NumCPU()
+	if s := os.Getenv("VSIM_WORKERS"); s != "" {
+		if v, err := strconv.Atoi(s); err == nil && v > 0 {
+			n = v
+		}
+	}
+	if n > 16 {
+		n = 16
+	}
+	return n
+}
+
+func tmpBase(b *Build) string {
+	if fi, err := os.Stat("/dev/shm"); err == nil && fi.IsDir() {
+		d := fmt.Sprintf("/dev/shm/vsim-%d", os.Getpid())
+		if os.MkdirAll(d, 0755) == nil {
+			return d
+		}
+	}
+	d := filepath.Join(b.Dir, "tmp")
+	os.MkdirAll(d, 0755)
+	return d
+}
+
+// runWorkers runs one batch of workers and returns their outputs. A worker
+// that dies is reported in crashed (index of the run in progress, if known).
+func runWorkers(bin string, jobs []Job, dir string, env []string, timeout time.Duration) ([]*Output, []string, error) {
+	outs := make([]*Output, len(jobs))
+	var crashed []string
+	var mu sync.Mutex
+	var wg sync.WaitGroup
+	var firstErr error
+	for i := range jobs {
+		wg.Add(1)
+		go func(i int) {
+			defer wg.Done()
+			j := jobs[i]
+			jp := filepath.Join(dir, fmt.Sprintf("job-%s-%d.json", j.Kind, j.Worker))
+			j.Out = filepath.Join(dir, fmt.Sprintf("out-%s-%d.json", j.Kind, j.Worker))
+			os.Remove(j.Out)
+			data, _ := json.Marshal(j)
+			os.WriteFile(jp, data, 0644)
+			cmd := exec.Command(bin, "-test.run", "^$")
+			cmd.Env = append(append([]string{}, env...), "VSIM_WORKER=1", "VSIM_JOB="+jp, "GOMAXPROCS=2", "GOTRACEBACK=single")
+			logf := filepath.Join(dir, fmt.Sprintf("log-%s-%d.txt", j.Kind, j.Worker))
+			lf, _ := os.Create(logf)
+			cmd.Stdout = lf
+			cmd.Stderr = lf
+			done := make(chan error, 1)
+			if err := cmd.Start(); err != nil {
+				mu.Lock()
+				firstErr = err
+				mu.Unlock()
+				return
+			}
+			go func() { done <- cmd.Wait() }()
+			var err error
+			select {
+			case err = <-done:
+			case <-time.After(timeout):
+				cmd.Process.Kill()
+				<-done
+				err = fmt.Errorf("worker %d timed out after %v (watchdog)", j.Worker, timeout)
+				mu.Lock()
+				if firstErr == nil {
+					firstErr = err
+				}
+				mu.Unlock()
+				lf.Close()
+				return
+			}
+			lf.Close()
+			data, rerr := os.ReadFile(j.Out)
+			if err != nil || rerr != nil {
+				lg, _ := os.ReadFile(logf)
+				mu.Lock()
+				crashed = append(crashed, fmt.Sprintf("worker %d (%s): %v\n%s", j.Worker, j.Kind, err, tail(string(lg), 3000)))
+				mu.Unlock()
+				return
+			}
+			var o Output
+			if jerr := json.Unmarshal(data, &o); jerr != nil {
+				mu.Lock()
+				crashed = append(crashed, fmt.Sprintf("worker %d: bad output: %v", j.Worker, jerr))
+				mu.Unlock()
+				return
+			}
+			outs[i] = &o
+		}(i)
+	}
+	wg.Wait()
+	return outs, crashed, firstErr
+}
+
+type agg struct {
+	runs, nontrivial, steps, switches, aborted int64
+	keys, sched, maps                          map[uint64]struct{}
+	counts, probes                             map[string]int64
+	violations                                 []Violation
+	samples                                    []interface{}
+	notes                                      []string
+	stopped                                    []string
+	wall                                       float64
+}
+
+func newAgg() *agg {
+	return &agg{keys: map[uint64]struct{}{}, sched: map[uint64]struct{}{}, maps: map[uint64]struct{}{}, counts: map[string]int64{}, probes: map[string]int64{}}
+}
+
+func (a *agg) add(o *Output) {
+	if o == nil {
+		return
+	}
+	a.runs += o.Runs
+	a.nontrivial += o.Nontrivial
+	a.steps += o.Steps
+	a.switches += o.Switches
+	a.aborted += o.Aborted
+	for _, k := range o.Keys {
+		a.keys[k] = struct{}{}
+	}
+	for _, k := range o.SchedHashes {
+		a.sched[k] = struct{}{}
+	}
+	for _, k := range o.MapHashes {
+		a.maps[k] = struct{}{}
+	}
+	for k, v := range o.Counts {
+		a.counts[k] += v
+	}
+	for k, v := range o.Probes {
+		a.probes[k] += v
+	}
+	a.violations = append(a.violations, o.Violations...)
+	for _, s := range o.Samples {
+		if len(a.samples) < 4 && s != nil {
+			a.samples = append(a.samples, s)
+		}
+	}
+	for _, n := range o.Notes {
+		if len(a.notes) < 20 {
+			a.notes = append(a.notes, n)
+		}
+	}
+	if o.Stopped != "" {
+		a.stopped = append(a.stopped, fmt.Sprintf("worker %d: %s", o.Worker, o.Stopped))
+	}
+	if o.WallS > a.wall {
+		a.wall = o.WallS
+	}
+}
+
+func runCheck(prop, tier, replayPath string) int {
+	start := time.Now()
+	spec, ok := specs[prop]
+	if !ok {
+		fmt.Fprintf(os.Stderr, "unknown property %q (claimed: %v)\n", prop, specNames())
+		return 2
+	}
+	seed := verifSeed()
+	fmt.Printf("VERIF_SEED=%d property=%s tier=%s\n", seed, prop, tier)
+	if t := os.Getenv("VERIF_TIER"); t != "" && replayPath == "" && (t == "quick" || t == "thorough") && tier == "" {
+		tier = t
+	}
+
+	var rf *ReplayFile
+	if replayPath != "" {
+		data, err := os.ReadFile(replayPath)
+		if err != nil {
+			fmt.Fprintln(os.Stderr, "cannot read replay file:", err)
+			return 2
+		}
+		rf = &ReplayFile{}
+		if err := json.Unmarshal(data, rf); err != nil {
+			fmt.Fprintln(os.Stderr, "bad replay file:", err)
+			return 2
+		}
+	}
+
+	b, err := PrepareBuild(buildOpts{Tag: prop, NeedRoot: spec.Binary == "root", NeedTB: spec.Binary == "tb", Race: rf != nil && rf.Race})
+	defer b.Cleanup()
+	if err != nil {
+		fmt.Fprintln(os.Stderr, "BUILD FAILED (exit 2, not a violation):", err)
+		return 2
+	}
+	bin := b.SimTest
+	if spec.Binary == "tb" {
+		bin = b.TBTest
+	}
+	tmp := tmpBase(b)
+	defer os.RemoveAll(tmp)
+	env := goEnv()
+
+	if rf != nil {
+		return doReplay(spec, b, bin, tmp, env, rf, replayPath)
+	}
+
+	t := spec.Quick
+	if tier == "thorough" {
+		t = spec.Thorough
+	}
+	nw := nWorkers()
+	a := newAgg()
+	kinds := spec.Kinds
+	if len(kinds) == 0 {
+		kinds = []string{""}
+	}
+	var crashedAll []string
+	for _, kind := range kinds {
+		var jobs []Job
+		for w := 0; w < nw; w++ {
+			jobs = append(jobs, Job{Prop: prop, Tier: tier, Mode: "search", Seed: seed, Worker: w, Stride: nw, Count: t.Count, Floor: t.Floor,
+				Kind: kind, TmpDir: tmp, BudgetS: t.BudgetS, Samples: 1, MaxViol: 2, ShrinkS: 20, StepCap: t.StepCap})
+		}
+		outs, crashed, werr := runWorkers(bin, jobs, b.Dir, env, time.Duration(t.BudgetS*4+600)*time.Second)
+		if werr != nil {
+			fmt.Fprintln(os.Stderr, "HARNESS TROUBLE (exit 2):", werr)
+			return 2
+		}
+		for _, o := range outs {
+			a.add(o)
+		}
+		crashedAll = append(crashedAll, crashed...)
+	}
+	if len(crashedAll) > 0 {
+		// A worker died. That can be the code under test (fatal runtime error)
+		// or the harness; report as harness trouble with the log so it is
+		// looked at, never silently.
+		fmt.Fprintln(os.Stderr, "WORKER CRASHED (exit 2):")
+		for _, c := range crashedAll {
+			fmt.Fprintln(os.Stderr, c)
+		}
+		return 2
+	}
+
+	// violations -> replay files, known findings
+	known := loadKnown()
+	os.MkdirAll(filepath.Join(verifDir, "replays"), 0755)
+	sort.SliceStable(a.violations, func(i, j int) bool { return len(a.violations[i].Choices) < len(a.violations[j].Choices) })
+	exit := 0
+	knownHit := map[string]int{}
+	seenCheck := map[string]int{}
+	var vioLines []string
+	for i := range a.violations {
+		v := &a.violations[i]
+		matched := false
+		for k := range known {
+			if known[k].matches(prop, v) {
+				knownHit[known[k].ID]++
+				matched = true
+				break
+			}
+		}
+		if matched {
+			continue
+		}
+		seenCheck[v.Check]++
+		if seenCheck[v.Check] > 2 {
+			continue
+		}
+		path := filepath.Join(verifDir, "replays", fmt.Sprintf("%s-%d-%d.json", prop, seed, len(vioLines)))
+		rfile := ReplayFile{Property: prop, Check: v.Check, Message: v.Msg, Kind: v.Kind, Seed: seed, RunSeed: v.RunSeed, Index: v.Index, Cell: v.Cell,
+			Mode: "choices", Choices: v.Choices, OrigLen: v.OrigLen, Shrink: v.ShrinkRun, Trace: v.Trace}
+		data, _ := json.MarshalIndent(rfile, "", " ")
+		os.WriteFile(path, data, 0644)
+		vioLines = append(vioLines, fmt.Sprintf("VIOLATION property=%s replay=%s", prop, path))
+		fmt.Printf("violation: check=%s %s\n", v.Check, v.Msg)
+		exit = 1
+	}
+	for _, k := range known {
+		if k.Property == prop && k.Status == "open" && knownHit[k.ID] > 0 {
+			fmt.Printf("KNOWN-FINDING: property=%s %s: %s (hit %d times)\n", prop, k.ID, k.What, knownHit[k.ID])
+		}
+	}
+
+	wall := time.Since(start).Seconds()
+	if err := writeEvidence(spec, tier, seed, a, b, wall, len(vioLines), knownHit, nw); err != nil {
+		fmt.Fprintln(os.Stderr, "cannot write evidence:", err)
+		return 2
+	}
+	fmt.Printf("runs=%d nontrivial=%d distinct=%d steps=%d interleavings=%d wall=%.1fs build=%v\n", a.runs, a.nontrivial, len(a.keys), a.steps, len(a.sched), wall, b.Wall)
+	for _, l := range vioLines {
+		fmt.Println(l)
+	}
+	if exit == 0 {
+		fmt.Printf("OK property=%s held on everything explored\n", prop)
+	}
+	return exit
+}
+
+func doReplay(spec Spec, b *Build, bin, tmp string, env []string, rf *ReplayFile, path string) int {
+	job := Job{Prop: spec.Prop, Tier: "replay", Mode: "replay", Seed: rf.Seed, Worker: 0, Stride: 1, Kind: rf.Kind, TmpDir: tmp, Replay: rf.Choices, Samples: 1}
+	if rf.Mode == "seed" {
+		job.Mode = "search"
+		job.Count = 1
+		job.FirstIdx = rf.Index
+	}
+	outs, crashed, err := runWorkers(bin, []Job{job}, b.Dir, env, 10*time.Minute)
+	if err != nil {
+		fmt.Fprintln(os.Stderr, "HARNESS TROUBLE:", err)
+		return 2
+	}
+	if len(crashed) > 0 {
+		fmt.Println("replayed run crashed the worker process:")
+		fmt.Println(crashed[0])
+		if rf.Check == spec.Prop+"/process-crash" {
+			fmt.Printf("VIOLATION property=%s replay=%s\n", spec.Prop, path)
+			return 1
+		}
+		return 2
+	}
+	o := outs[0]
+	for _, l := range o.ReplayTrace {
+		fmt.Println("  " + l)
+	}
+	for _, f := range o.ReplayFails {
+		fmt.Printf("failure: check=%s %s\n", f.Check, f.Msg)
+	}
+	for _, v := range o.Violations {
+		fmt.Printf("failure: check=%s %s\n", v.Check, v.Msg)
+	}
+	if len(o.ReplayFails) > 0 || len(o.Violations) > 0 {
+		got := ""
+		if len(o.ReplayFails) > 0 {
+			got = o.ReplayFails[0].Check
+		} else {
+			got = o.Violations[0].Check
+		}
+		if got != rf.Check {
+			fmt.Printf("note: replay failed with check %s, recorded was %s\n", got, rf.Check)
+		}
+		fmt.Printf("VIOLATION property=%s replay=%s\n", spec.Prop, path)
+		return 1
+	}
+	fmt.Println("replay did not reproduce a violation on this tree")
+	return 0
+}
+
+func specNames() []string {
+	var n []string
+	for k := range specs {
+		n = append(n, k)
+	}
+	sort.Strings(n)
+	return n
+}
+
+func writeEvidence(spec Spec, tier string, seed uint64, a *agg, b *Build, wall float64, nviol int, knownHit map[string]int, nw int) error {
+	faults := map[string]int64{}
+	probes := map[string]int64{}
+	cells := map[string]int64{}
+	for k, v := range a.probes {
+		switch {
+		case strings.HasPrefix(k, "fault."):
+			faults[strings.TrimPrefix(k, "fault.")] = v
+		case strings.HasPrefix(k, "cell."):
+			cells[strings.TrimPrefix(k, "cell.")] = v
+		default:
+			probes[k] = v
+		}
+	}
+	truncCells := 0
+	counts := map[string]int64{}
+	for k, v := range a.counts {
+		if strings.HasPrefix(k, "trunc.") {
+			truncCells++
+			continue
+		}
+		counts[k] = v
+	}
+	if truncCells > 0 {
+		counts["truncation (step, offset, frame length) triples covered"] = int64(truncCells)
+	}
+	var kh []string
+	for id, n := range knownHit {
+		kh = append(kh, fmt.Sprintf("%s x%d", id, n))
+	}
+	sort.Strings(kh)
+	rph := 0.0
+	if wall > 0 {
+		rph = float64(a.runs) / wall * 3600
+	}
+	cov := map[string]interface{}{
+		"evaluations":            a.runs,
+		"distinct_nontrivial":    len(a.keys),
+		"rule":                   spec.Rule,
+		"samples":                a.samples,
+		"runs_per_hour":          int64(rph),
+		"seeds":                  fmt.Sprintf("VERIF_SEED=%d; run seed i = splitmix(VERIF_SEED, i), i in [0,%d); floor cells seeded splitmix(VERIF_SEED, 0xf100, cell)", seed, a.runs),
+		"simulated_steps_total":  a.steps,
+		"simulated_time":         "the code under test reads no clock and has no timers; simulated time is the scheduler step counter (simulated_steps_total)",
+		"task_switches_total":    a.switches,
+		"distinct_interleavings": len(a.sched),
+		"distinct_interleavings_measure": "FNV hash of the sequence of tasks chosen at scheduling points with >= 2 runnable tasks",
+		"distinct_map_orders":    len(a.maps),
+		"fault_kinds_fired":      faults,
+		"probes":                 probes,
+		"counts":                 counts,
+		"components_real":        spec.RealComp,
+		"components_stubbed":     spec.StubComp,
+		"runs_abandoned":         a.aborted,
+		"workers":                nw,
+		"known_findings_hit":     kh,
+		"out_of_scope_observations": a.notes,
+		"build_wall_s":           b.Wall,
+		"stopped_early":          a.stopped,
+	}
+	if len(cells) > 0 {
+		cov["protocol_cells"] = cells
+	}
+	if b.Seam != nil {
+		cov["seams"] = map[string]interface{}{
+			"sync_imports_swapped": b.Seam.SyncImports, "exec_imports_swapped": b.Seam.ExecImports, "log_imports_swapped": b.Seam.LogImports,
+			"go_statements": b.Seam.GoStmts, "map_ranges": b.Seam.MapRanges, "reflect_mapkeys_calls": b.Seam.MapKeysCalls, "yield_sites": b.Seam.YieldSites,
+			"knobs": b.Seam.Knobs, "unsimulated_primitives": b.Seam.Unsimulated, "unseamed_map_ranges": b.Seam.UnseamedMapRanges,
+			"other_nondeterminism_sources": b.Seam.Nondeterminism,
+		}
+	}
+	ev := map[string]interface{}{
+		"property_id": spec.Prop,
+		"tier":        tier,
+		"seed":        int64(seed),
+		"level":       spec.Level,
+		"coverage":    cov,
+		"assumptions": spec.Assume,
+		"wall_s":      wall,
+		"violations":  nviol,
+	}
+	os.MkdirAll(filepath.Join(verifDir, "evidence"), 0755)
+	data, err := json.MarshalIndent(ev, "", " ")
+	if err != nil {
+		return err
+	}
+	tmp := filepath.Join(verifDir, "evidence", spec.Prop+".json.tmp")
+	if err := os.WriteFile(tmp, data, 0644); err != nil {
+		return err
+	}
+	return os.Rename(tmp, filepath.Join(verifDir, "evidence", spec.Prop+".json"))
+}
+
+func runSelftest() int { return 2 }
